@@ -82,7 +82,8 @@ def allList (n : Nat) : List Nat := (List.range n).map (· + 1)
 /-- the list `solve_x` works with -/
 def eff (inp : EnvInput) (m : Option (List Nat)) : List Nat := m.getD (allList inp.n)
 
-/-- cache capacity: `MoveToFront<3,Index,Index>` (checked against the source by the C04 translator) -/
+/-- cache capacity: `MoveToFront<3,Index,Index>`; equal to the regenerated `Gen.mtfCapacity` (tools/gen/c04_cascade.py reads
+    `MoveToFront<(\d+)` in adj_envelope.h) by `Props.C04.mtf_cache_size_is_source : cacheSize = Gen.mtfCapacity := rfl` -/
 def cacheSize : Nat := 3
 
 def upd (f : Nat → Prov) (k : Nat) (v : Prov) : Nat → Prov := fun j => if j = k then v else f j
